@@ -23,6 +23,8 @@ structure PassFacts4 (j0 : JobObj) (s0 sp : Sys) (jo : JobObj) : Prop where
   contigJo : Contig j0 sp.d jo.job.status.tasks
   down0 : ∀ j, s0.job = some j → ∀ c ∈ s0.podCache, c.ownerUid = some j0.uid → PodDown s0.d j.job.status.tasks c
   rvJo : jo.rv ≤ s0.rv
+  idCur : CachedIsCur jo (sync sp jo).1
+  idCur0 : CachedIsCur0 jo s0 sp
 
 theorem Inv4.jobGone {j0 : JobObj} {s s' : Sys} (h : Inv4 j0 s) (hg : JobGone s s') : Inv4 j0 s' := by
   have hseen : seenVers s' = seenVers s := by
@@ -153,6 +155,27 @@ theorem Inv4.micro {j0 jo : JobObj} {s0 sp s s' : Sys} (hb : Base j0 s) (h2 : In
       · rw [hd]; exact hcontig
       · show s0.rv < s.rv + 1
         omega
+  | updStatusOn s1 hs1 hs1' hok =>
+    rcases apiUpdateJobStatus_spec s { jo with rv := updatedRv s jo } { jo with job := (sync sp jo).2.1 } with
+      hs | ⟨c, hc', hrv, hs⟩
+    · exact ⟨h4.frame hs, keep hs.job⟩
+    · -- the object `Update` produced: the cached Job (which the pass had found untouched) with new metadata
+      have hcur := apiUpdateJob_ok_cur (hs1 ▸ pf.idCur) hok c (hs1' ▸ hc')
+      have hj0 : s0.job = some jo := pf.idCur0 jo (by rw [← hs1]; exact hcur.2.2) rfl
+      obtain ⟨r0, rfl⟩ : ∃ r0, c =
+          specWrite jo { jo with job := (sync sp jo).2.1, finalizer := (sync sp jo).2.2.1 } r0 := ⟨_, hcur.1⟩
+      have hdown : ∀ c ∈ sp.podCache, c.ownerUid = some j0.uid → PodDown sp.d jo.job.status.tasks c := by
+        intro c hcm ho
+        rw [pf.frame.d]
+        exact pf.down0 jo hj0 c (pf.frame.podCache ▸ hcm) ho
+      have hcontig := sync_contig sp jo pf.wf2 pf.podsSp hjo pf.goodJo pf.contigJo hdown
+      have hgood := (sync_good sp jo pf.wf2 pf.podsSp hjo pf.goodJo).1
+      have hle := (sync_spec sp jo sp (CreatePhase.refl _)).2
+      refine ⟨h4.jobWrite h2 hwf hs hc' ?_ ?_ hle.names, Or.inr (Or.inl ⟨_, hs.job, ?_⟩)⟩
+      · rw [hd]; exact hgood.of_status_eq rfl
+      · rw [hd]; exact hcontig
+      · show s0.rv < s.rv + 1
+        omega
 
 theorem Inv4.micros {j0 jo : JobObj} {s0 sp s s' : Sys} (hb : Base j0 s) (h2 : Inv2 j0 s) (h4 : Inv4 j0 s)
     (hc : s.jobCache = some jo) (pf : PassFacts4 j0 s0 sp jo) (hd : s.d = sp.d) (hrv0 : s0.rv ≤ s.rv)
@@ -230,7 +253,8 @@ theorem Inv4.step {j0 : JobObj} {s : Sys} (hb : Base j0 s) (h2 : Inv2 j0 s) (h4 
       have hcsp : sp.jobCache = some jo := hf.jobCache.trans hc
       have pf : PassFacts4 j0 s sp jo :=
         ⟨hf, hf.d ▸ hwf, h2sp.pods, h2sp.seen jo (mem_seenVers_cache hcsp), hf.d ▸ h4.contig jo (Or.inr hseen),
-          fun j hj c hcm => h4.down j hj c (Or.inr (Or.inl hcm)), (hb.seenOK jo hseen).2⟩
+          fun j hj c hcm => h4.down j hj c (Or.inr (Or.inl hcm)), (hb.seenOK jo hseen).2,
+          cachedIsCur_sync (hb.frame hf) hcsp, cachedIsCur0_sync (hb.frame hf) hcsp hf⟩
       exact Inv4.micros (hb.frame hf) h2sp (h4.frame hf) hcsp pf rfl (by rw [hf.rv]; exact Nat.le_refl _)
         (Or.inl hf.job) hm
   | deliverJob =>
